@@ -690,7 +690,10 @@ def run(ctx: lib.Ctx) -> None:
         codes = [build(st) for st in ('all', 'some', 'none')]
         iseed = rng.randrange(1 << 30)
         styles = ['all', 'some', 'none', 'all+instr', 'none+instr'] + (['all+instr2'] if ctx.thorough else [])
-        codes += [decorate(build('all'), iseed), decorate(build('none'), iseed)] + ([decorate(build('all'), iseed + 1)] if ctx.thorough else [])
+        if kind == 19:
+            iseed = None      # the serialized value is a lambda: annotations on the instructions of its body are code, not types
+        codes += [decorate(build('all'), iseed), decorate(build('none'), iseed)] + \
+            ([decorate(build('all'), None if iseed is None else iseed + 1)] if ctx.thorough else [])
         obs3 = [observe_any(c) for c in codes]
         wide_kinds[kind] = wide_kinds.get(kind, 0) + (obs3[2][0] == 'ok')
         for st, c, o in zip(styles, codes, obs3):
